@@ -1,7 +1,7 @@
 """Builtins, library models, comprehensions and numeric folds."""
 import ast
 import z3
-from .folds import ssimp
+from .folds import ssimp, mkquant
 from .values import *
 from .core import Path
 from .expr import PathAbort, VBoundStr, VBoundColl
@@ -264,8 +264,8 @@ class BuiltinMixin:
         finally:
             self.ctx.generic_depth -= 1
         if universal:
-            return z3.ForAll([i], z3.Implies(cond, inner))
-        return z3.Exists([i], z3.And(cond, inner))
+            return mkquant(True, i, z3.Implies(cond, inner))
+        return mkquant(False, i, z3.And(cond, inner))
 
     def seq_numeric(self, kind, v, path):
         """sum / prod of an already evaluated list value"""
@@ -328,7 +328,7 @@ class BuiltinMixin:
     def special_form(self, name, node, path):
         args = node.args
         gen = args[0] if args and isinstance(args[0], (ast.GeneratorExp, ast.ListComp)) else None
-        if name in ('sum', 'math.prod') and len(args) == 1:
+        if name in ('sum', 'math.prod', 'prod') and len(args) == 1:
             kind = 'sum' if name == 'sum' else 'prod'
             if gen is not None:
                 t = self.gen_numeric(kind, gen, path)
@@ -349,7 +349,7 @@ class BuiltinMixin:
                 return VBool(z3.And(*ts) if name == 'all' else z3.Or(*ts))
             i, n, guard, sub, el = self.generic_iter(v, path)
             t = self.truth(el, sub)
-            return VBool(z3.ForAll([i], z3.Implies(guard, t)) if name == 'all' else z3.Exists([i], z3.And(guard, t)))
+            return VBool(mkquant(True, i, z3.Implies(guard, t)) if name == 'all' else mkquant(False, i, z3.And(guard, t)))
         if name in ('max', 'min') and len(args) == 1 and not node.keywords:
             return self.minmax(name, gen, args[0], path, node, None)
         if name in ('max', 'min') and len(args) == 1 and len(node.keywords) == 1 and node.keywords[0].arg == 'default':
@@ -435,9 +435,9 @@ class BuiltinMixin:
             r = f(*(params + [N]))
             J = z3.Int('J!')
             cj, vj = z3.substitute(ncond, (I, J)), z3.substitute(nval, (I, J))
-            nonempty = z3.Exists([J], z3.And(0 <= J, J < N, cj))
-            attained = z3.Exists([J], z3.And(0 <= J, J < N, cj, vj == r))
-            bound = z3.ForAll([J], z3.Implies(z3.And(0 <= J, J < N, cj), vj <= r if name == 'max' else vj >= r))
+            nonempty = mkquant(False, J, z3.And(0 <= J, J < N, cj))
+            attained = mkquant(False, J, z3.And(0 <= J, J < N, cj, vj == r))
+            bound = mkquant(True, J, z3.Implies(z3.And(0 <= J, J < N, cj), vj <= r if name == 'max' else vj >= r))
             ax = z3.ForAll(params + [N], z3.Implies(nonempty, z3.And(attained, bound)), patterns=[r])
             ctx.axioms.append(ax)
             ctx.minmax_defs[key] = (f, ncond, nval, params, I)
@@ -445,7 +445,10 @@ class BuiltinMixin:
         f, ncond, nval, fparams, _ = ctx.minmax_defs[key]
         r = f(*(subs + [n]))
         j = ctx.fresh('j', z3.IntSort())
-        nonempty_here = z3.Exists([j], z3.And(0 <= j, j < n, z3.substitute(cond, (i, j))))
+        if z3.is_true(cond):
+            nonempty_here = n > 0
+        else:
+            nonempty_here = mkquant(False, j, z3.And(0 <= j, j < n, z3.substitute(cond, (i, j))))
         if default is None:
             ctx.oblige(path, 'defined', f'{name}() of an empty sequence (ValueError)', nonempty_here, ln)
             return VInt(r) if r.sort() == z3.IntSort() else VReal(r)
@@ -504,9 +507,9 @@ class BuiltinMixin:
             raise OutOfReach('next() under a generic index')
         J = z3.Int('J!')
         cj = z3.substitute(cond, (i, J))
-        exists = z3.Exists([J], z3.And(0 <= J, J < n, cj))
+        exists = mkquant(False, J, z3.And(0 <= J, J < n, cj))
         path.assume(z3.Implies(exists, z3.And(0 <= k, k < n, z3.substitute(cond, (i, k)),
-                                              z3.ForAll([J], z3.Implies(z3.And(0 <= J, J < k), z3.Not(cj))))))
+                                              mkquant(True, J, z3.Implies(z3.And(0 <= J, J < k), z3.Not(cj))))))
         ctx.assumptions.add('library model: next(generator, default) returns the first element produced')
         found = self.subst_val(val, i, k)
         if default is None:
